@@ -69,6 +69,12 @@ def determinism(seed, n=200):
             f"{m1}, other-zygote/worker-count mismatches {m2}, fresh-interpreter mismatches "
             f"{m3} (of {k})")
         bad += m1 + m2 + m3
+    with open(os.path.join(VERIF, "evidence", "selftest_determinism.json"), "w") as f:
+        json.dump({"seed": seed, "runs_per_property": n, "modes": [
+            "twice from the same zygote", "independently started zygotes, 3 workers instead "
+            "of 16", f"fresh non-forked interpreter (first {max(10, n // 10)} runs)",
+            "schedule generation under host PYTHONHASHSEED 0 and 12345"],
+            "mismatches": bad, "wall_s": round(time.time() - t0)}, f, indent=1)
     log(f"[selftest] determinism {'OK' if not bad else 'FAILED'} in {time.time() - t0:.0f}s")
     return 0 if not bad else 2
 
